@@ -10,7 +10,7 @@ RULE = (
     "empty / list attribute values and custom separators; distinct = hash of the configuration; trivial = single row"
 )
 ASSUMPTIONS = ["decoder labels are unique single-line strings that do not start with a style segment", "custom styles use three distinct strings of equal width"]
-GATES = ["mon.C09.rows", "mon.C09.decoder", "mon.C09.text", "mon.C09.repr", "C09.depth_ge_4", "C09.last_under_nonlast", "C09.childiter_changes_last", "C09.multiline", "C09.empty_value", "C09.maxlevel_cuts", "C09.abandoned_iteration", "C09.after_mutation"]
+GATES = ["mon.C09.rows", "mon.C09.decoder", "mon.C09.text", "mon.C09.repr", "C09.depth_ge_4", "C09.last_under_nonlast", "C09.childiter_changes_last", "C09.multiline", "C09.empty_value", "C09.maxlevel_cuts", "C09.abandoned_iteration", "C09.nested_use", "C09.after_mutation"]
 
 
 def plan(tier, seed, jobs):
@@ -143,6 +143,21 @@ def check_config(ctx, lib, nodes, idmap, par, ch, s, st, ci, ml, case, names):
     if again != obs:
         ctx.violation("C09/rows/re-iteration", "reference-rows", cfg, expected=obs[:20], observed=again[:20])
         return False
+    # the object is used again while one of its own iterations is suspended (nested rendering, two interleaved iterators)
+    if 2 <= len(exp) <= 12:
+        ctx.count("C09.nested_use")
+        nested = []
+        it2 = None
+        for r in rt:
+            nested.append((r[0], r[1], idmap.get(id(r[2]), "?")))
+            rt.by_attr("name")
+            if it2 is None:
+                it2 = iter(rt)
+            else:
+                next(it2, None)
+        if nested != obs:
+            ctx.violation("C09/rows/nested-use", "reference-rows", cfg, expected=obs[:20], observed=nested[:20])
+            return False
     # abandoned iterations (early stop, exception from a user callback at some row) leave nothing behind in the object
     if len(exp) >= 2:
         ctx.count("C09.abandoned_iteration")
